@@ -33,7 +33,7 @@ def cases(tier, seed):
     n = gen.tiny_count((2, 3), 2)
     for i in range(n):
         yield {"fam": "t2x3b", "i": i}
-    for i in range(4000 if tier == "quick" else 120000):
+    for i in range(8000 if tier == "quick" else 200000):
         yield {"fam": "rand", "i": i}
     for i in range(3 if tier == "quick" else 12):
         yield {"fam": "large", "i": i}
